@@ -6,10 +6,24 @@ TRUSTED = ["python ast (stdlib)", "RxPY: Subject delivers synchronously in subsc
 
 
 def rules_for(prop):
-    from .rules import mx, st
+    from .rules import mx, st, grp, lv
+    from functools import partial as P
+
+    def named(f, **kw):
+        g = P(f, **kw)
+        return g
     table = {
         "C02": st.RULES,
         "C03": mx.RULES,
+        "C04": [named(grp.rule_eq1, files=("rxsci/operators/group_by.py", "rxsci/state/memory_store.py", "rxsci/state/store.py",
+                                           "rxsci/operators/multiplex.py"), min_instances=12), named(grp.rule_fw1, heads=("group_by",)), grp.rule_fl1,
+                named(lv.rule_lv, only=("group_by_mux._group_by.on_subscribe",))],
+        "C05": [grp.rule_roll, st.rule_st2_3_4, st.rule_st6,
+                named(lv.rule_lv, only=("roll_mux._roll.subscribe", "roll_mux._roll_count.subscribe"))],
+        "C06": [named(grp.rule_eq1, files=("rxsci/data/split.py",), min_instances=7), named(grp.rule_fw1, heads=("split",)), grp.rule_dp4,
+                named(lv.rule_lv, only=("split_mux._split.on_subscribe",))],
+        "C07": [grp.rule_time_split, named(grp.rule_fw1, heads=("time_split",)),
+                named(lv.rule_lv, only=("time_split_mux._time_split.on_subscribe",))],
     }
     return table.get(prop)
 
